@@ -6,6 +6,7 @@ mod hubcore;
 mod obs;
 mod props;
 mod runner;
+mod unbondlc;
 
 use runner::Tier;
 
